@@ -97,8 +97,9 @@ Ev(e, t, k, p, tg, n, g, v, w) == [e |-> e, t |-> t, k |-> k, p |-> p, tg |-> tg
 \* what the holder of a delivered event sees in it NOW
 View(s, ev) == IF ev.ref = <<>> \/ ev.ref[1] > Len(s.ctx) THEN ev.tg ELSE s.ctx[ev.ref[1]]
 \* a context object that goes out of use keeps the content it had: events referring to depth >= d get that value for good
-Freeze(s, d) == [s EXCEPT !.log = [y \in DOMAIN @ |-> IF @[y].ref # <<>> /\ @[y].ref[1] >= d
-                                                      THEN [@[y] EXCEPT !.tg = View(s, @[y]), !.ref = <<>>] ELSE @[y]]]
+Freeze(s, d) == [s EXCEPT !.log = [y \in DOMAIN s.log |->
+                                        LET ev == s.log[y] IN
+                                        IF ev.ref # <<>> /\ ev.ref[1] >= d THEN [ev EXCEPT !.tg = View(s, ev), !.ref = <<>>] ELSE ev]]
 EvPlain(e, t) == Ev(e, t, None, None, NoTags, {}, {}, None, None)
 
 -----------------------------------------------------------------------------
